@@ -49,6 +49,8 @@ import (
 	"github.com/oneconcern/datamon/pkg/storage/localfs"
 )
 
+var c17Endless int
+
 func init() { subs["c17"] = c17; subs["c17probe"] = c17Probe }
 
 // c17Probe uploads one multi-leaf file with a 256-byte leaf size. On a tree where cafs' writer cannot
@@ -706,8 +708,10 @@ func c17Program(c *ctx, m *c17Mount, files []c17File) {
 				if len(ds) == 0 {
 					break
 				}
-				if pages > 5000 {
+				if pages > 700 || c17Endless >= 5 {
+					// at most 200 children per directory: a listing that needs more pages does not end
 					res = "endless"
+					c17Endless++
 					break
 				}
 				n := cuts[(pages-1)%nb]
@@ -851,10 +855,20 @@ func c17Program(c *ctx, m *c17Mount, files []c17File) {
 		}
 		var all []c17Dirent
 		off := uint64(0)
-		for pages := 0; pages < 5000; pages++ {
+		seen := map[string]bool{}
+	pagesLoop:
+		for pages := 0; pages < 300; pages++ {
 			r, ds := m.readDir(ino, off, 4096)
 			if r != "ok" || len(ds) == 0 {
 				break
+			}
+			for _, e := range ds {
+				if seen[e.name] {
+					// a resumed listing returned an entry again: do not walk it (and everything below) twice
+					direntOK = "repeated"
+					break pagesLoop
+				}
+				seen[e.name] = true
 			}
 			all = append(all, ds...)
 			off = ds[len(ds)-1].off
